@@ -55,6 +55,9 @@ def confirm(d):
             res["apply_error"] = out[-500:]
             return res
         rc, out = sh(["/venv/bin/python", "-m", "pytest", "-q", "-p", "no:cacheprovider", "-x"], cwd=wt, env=env_for(wt), timeout=900)
+        if rc != 0:   # tests/test_rt.py measures wall-clock time and flakes when the machine is loaded: one more attempt
+            res["suite_first_attempt"] = out.strip().splitlines()[-1] if out.strip() else ""
+            rc, out = sh(["/venv/bin/python", "-m", "pytest", "-q", "-p", "no:cacheprovider"], cwd=wt, env=env_for(wt), timeout=900)
         res["suite_rc"] = rc
         res["suite_tail"] = out.strip().splitlines()[-1] if out.strip() else ""
         rc, out = sh(["/venv/bin/python", os.path.join(d, "demo.py")], cwd=wt, env=env_for(wt), timeout=600)
